@@ -4,10 +4,13 @@ MODULES = {
     "C01": ["contracts.c01_grid"],
     "C02": ["contracts.c02_itk"],
     "C03": ["contracts.c03_derived"],
+    "C04": ["contracts.c04_c05_images"],
+    "C05": ["contracts.c04_c05_images"],
     "C06": ["contracts.c06_c07_transforms"],
     "C07": ["contracts.c06_c07_transforms"],
     "C08": ["contracts.c08_linalg"],
     "C09": ["contracts.c09_histories"],
+    "C10": ["contracts.c10_flowfields"],
     "C11": ["contracts.c11_c13_flow"],
     "C12": ["contracts.c12_derivatives"],
     "C13": ["contracts.c12_derivatives", "contracts.c11_c13_flow"],
